@@ -94,6 +94,10 @@ fn("at", "function at(k, a) return integer is begin if k <= 0 then return fxi(a)
 fn("ferr", "function ferr(k) return string is begin if k == 1 then begin raise boom; exception when boom then raise again; end; end if; "
            "if k == 2 then begin raise soft; exception when soft then zz = 1; end; end if; return \"<\" + str(error@1) + str(error@2) + \">\"; end;",
    {"ferr(0)": "r=<>\n", "ferr(1)": "err=AGAIN\n", "ferr(2)": "r=<>\n"})
+# a built-in that evaluates an argument several times and fails at the second evaluation (nothing may be left allocated)
+fn("fonce2", "function fonce2(s, a) return integer is begin if a and s.count() > 1 then raise efail; end if; return s.count(); end;", {})
+fn("ftf", 'function ftf(a) return integer is begin s = ""; t = tab(3, fonce2(s.concat("x"), a)); return t.count() * 10 + t.at(2); end;',
+   {"ftf(true)": "err=EFAIL\n", "ftf(false)": "r=33\n"})
 fn("farg", "function farg(a, b) return integer is begin if isnull(c) then c = 0; end if; c = c + a * 10 + b; return c; end;", {})
 # farg reads c before assignment lexically -> must be rejected; handled separately
 
@@ -105,7 +109,7 @@ GROUPS = {
     "fx": ["fx"], "fs": ["fs"], "ft": ["ft"], "fxi": ["fxi"], "facc": ["facc"], "fl": ["fl"], "fact": ["fact"], "fib": ["fib"],
     "evod": ["ev", "od2"], "fm": ["fm"], "fms": ["fms"], "fmi": ["fmi"], "fhe": ["fhe"], "fue": ["fue"], "ffa": ["ffa"], "ffe": ["ffe"],
     "fle": ["fle"], "fwe": ["fwe"], "frn": ["frn"], "fo": ["fo0", "fo1", "fo2"], "fp": ["fp"], "fty": ["fty"], "fsafe": ["fsafe"], "fnr": ["fnr"],
-    "add": ["add"], "mark": ["mark"], "at": ["at"], "ferr": ["ferr"],
+    "add": ["add"], "mark": ["mark"], "at": ["at"], "ferr": ["ferr"], "ftf": ["fonce2", "ftf"],
 }
 
 
